@@ -132,14 +132,18 @@ def write_mhtml(doc: dict, encoding: str = "quoted-printable") -> bytes:
     pick = len(html) % 6
     if encoding == "quoted-printable" and pick in (1, 4):
         encoding = "base64"
+    if encoding == "quoted-printable" and pick == 5:
+        encoding = "8bit"               # the part as it is (UTF-8 bytes, no transfer encoding)
     if encoding == "base64":
         payload = base64.encodebytes(html)
+    elif encoding == "8bit":
+        payload = html
     else:
         payload = quopri.encodestring(html)
     encoding = {0: encoding, 1: encoding, 2: "Quoted-Printable", 3: "QUOTED-PRINTABLE", 4: "BASE64", 5: encoding}[pick]
     b = "----=_NextPart_000_0000"
     return (b"From: <Saved by test>\r\nSubject: page\r\nMIME-Version: 1.0\r\n"
             b'Content-Type: multipart/related; type="text/html"; boundary="' + b.encode() + b'"\r\n\r\n'
-            b"--" + b.encode() + b"\r\nContent-Type: text/html; charset=\"utf-8\"\r\n"
+            b"--" + b.encode() + b"\r\nContent-Type: text/html" + (b"" if encoding == "8bit" else b"; charset=\"utf-8\"") + b"\r\n"
             b"Content-Transfer-Encoding: " + encoding.encode() + b"\r\nContent-Location: http://example.invalid/\r\n\r\n"
             + payload + b"\r\n--" + b.encode() + b"--\r\n")
